@@ -63,8 +63,12 @@ def cook_check(self):
 
 
 def gen_cases():
+    # modification times: small integers and present-day epoch seconds one second (and a fraction of a
+    # second) apart -- "changed" means a different time stamp, whatever its magnitude
+    T = 1790000000.0
     for auto, cooked, last, mt, rd, ck in itertools.product(
-            (False, True), (False, True), (None, 1, 2), (1, 2, 'raise'), ('body', 'raise'), ('ok', 'raise')):
+            (False, True), (False, True), (None, 1, 2, T), (1, 2, T, T + 1.0, T - 0.25, 'raise'),
+            ('body', 'raise'), ('ok', 'raise')):
         yield ({'self': _make(auto, cooked, last, mt, rd, ck)}, {})
 
 
